@@ -37,7 +37,9 @@ def bufstep(prof, quick, thorough, steps=40):
     return {"name": "bufstep", "test": "TestBufStep", "steps": steps,
             "checks": {"quick": quick, "thorough": thorough},
             "shards": {"quick": 8, "thorough": 16},
-            "env": {"VKIT_PROFILE": prof}}
+            # a wedge between Put, a blocked Get and a waiting Diff parks goroutines on mutexes: the bubble never goes
+            # quiet and only the stall watchdog sees it
+            "env": {"VKIT_PROFILE": prof}, **({"stall_sig": "C05/stall"} if prof == "C05" else {})}
 
 
 CHAN_MODEL = ("rapid state machine over bigbuff.Channel inside a synctest bubble (virtual poll ticks): source buffered (cap 1/4) or "
